@@ -33,7 +33,11 @@ var c16Topics = []string{"t1", "t2"}
 // half-dead-current: the broker's writes to the current connection start failing while its read loop keeps
 // waiting (the broker then closes the connection on the next write, but the connection stays registered and
 // its read loop notices only when the link is finally dropped, as a "superseded"/dead connection).
-var c16Events = []string{"connect-clean", "connect-keep", "subscribe-t1", "subscribe-t2", "unsubscribe-t1", "drop-current", "drop-superseded", "admin-delete", "half-dead-current"}
+var c16Events = []string{"connect-clean", "connect-keep", "subscribe-t1", "subscribe-t2", "unsubscribe-t1", "drop-current", "drop-superseded", "admin-delete", "half-dead-current", "storage-stalls", "storage-resumes"}
+
+// storage-stalls / storage-resumes: the session store (etcd) stops answering puts for a while; what was written
+// meanwhile is persisted, in order, when it resumes.  Connections are only attempted while the storage works
+// (otherwise "the previous session" is not defined yet).
 
 func setStr(m map[string]bool) string {
 	var k []string
@@ -55,9 +59,9 @@ func cloneSet(m map[string]bool) map[string]bool {
 func TestVerifC16(t *testing.T) {
 	synctest.Test(t, func(t *testing.T) {
 		env := mc.GetEnv()
-		L := 5
+		L := 7
 		if env.Thorough() {
-			L = 7
+			L = 8
 		}
 		run := func(c *mc.Ctx) {
 			vb := vNewBroker(&Spec{})
@@ -66,6 +70,7 @@ func TestVerifC16(t *testing.T) {
 			var conns []*vClient
 			open := map[int]bool{}
 			var hist []string
+			stalled := false
 			probe := func(after string) {
 				for _, tp := range c16Topics {
 					for _, cl := range conns {
@@ -112,8 +117,16 @@ func TestVerifC16(t *testing.T) {
 					ok := true
 					switch e {
 					case "connect-clean", "connect-keep":
-						ok = len(conns) < 3
-					case "subscribe-t1", "subscribe-t2", "unsubscribe-t1", "drop-current", "admin-delete", "half-dead-current":
+						ok = len(conns) < 3 && !stalled
+					case "storage-stalls":
+						ok = !stalled && ref.current >= 0
+					case "storage-resumes":
+						ok = stalled
+					case "admin-delete":
+						// reading: what a session delete means for writes that the stalled storage has not
+						// applied yet is not defined by the statement, so the two are not combined
+						ok = ref.current >= 0 && !stalled
+					case "subscribe-t1", "subscribe-t2", "unsubscribe-t1", "drop-current", "half-dead-current":
 						ok = ref.current >= 0
 					case "drop-superseded":
 						ok = false
@@ -134,6 +147,13 @@ func TestVerifC16(t *testing.T) {
 				hist = append(hist, e)
 				c.Note("%s", e)
 				switch e {
+				case "storage-stalls":
+					vb.store.stall()
+					stalled = true
+				case "storage-resumes":
+					vb.store.resume()
+					stalled = false
+					synctest.Wait()
 				case "connect-clean", "connect-keep":
 					clean := e == "connect-clean"
 					cl := vb.connect("c", clean)
